@@ -602,6 +602,13 @@ class Die:
             stack.extend(reversed(d.children))
 
 
+class Nowhere:
+    """the target of a dangling reference: an offset beyond the end of .debug_info"""
+    def __init__(self, offset):
+        self.offset = offset
+        self.unit = None
+
+
 class Unit:
     def __init__(self, index, version, partial):
         self.index = index              # position in .debug_info
@@ -843,6 +850,8 @@ class Forest:
         if f == F["strp"]:
             return {"str": a.val, "strp": a.strp_off}
         if f in _REF_FORMS:
+            if isinstance(a.val, Nowhere):
+                return {"ref": a.val.offset, "dangling": True}
             return {"ref": a.val.offset}
         if f in (F["block1"], F["exprloc"]):
             if isinstance(a.val, Expr):
@@ -996,7 +1005,7 @@ _DEFAULTS = dict(min_units=1, max_units=4, max_depth=4, max_dies=40, versions=(2
                  partial_units=True, refs=True, share_abbrev=0.5, sibling=0.35, strp=0.5,
                  lone_null=0.15, odd_codes=0.3, cross_unit_chains=False, max_chain=4,
                  llvm_safe=True, v4_block_locations=False, extras=0.3, refused=0.0, cu_imports=0.0, dup_attrs=0.0, implicit_consts=0.0, const_blocks=0.0, empty_ranges=0.0,
-                 rich_ops=0.0, loclists=0.0, type_units=0.0, mixed_enums=0.0, vendor_forms=0.0,
+                 rich_ops=0.0, loclists=0.0, type_units=0.0, mixed_enums=0.0, vendor_forms=0.0, both_refs=0.1, dangling_refs=0.0,
                  const_forms=("data1", "data2", "data4", "data8", "sdata", "udata"))
 
 _WORDS = ["foo", "bar", "baz", "qux", "main", "x", "y", "i", "T", "value", "next", "node",
@@ -1799,8 +1808,9 @@ class ForestGen:
                     if not later or not (force or self._chance(density)):
                         continue
                     kinds = [r.choice(["specification", "abstract_origin"])]
-                    if self._chance(0.1):
+                    if self._chance(self.opts.get("both_refs", 0.1)):
                         kinds = ["specification", "abstract_origin"]
+                        r.shuffle(kinds)            # stored in either order: the integration order must not depend on it
                     for kind in kinds:
                         # prefer the immediate successor: makes long chains likely
                         t = later[0] if force or self._chance(0.6) else r.choice(later)
@@ -1948,6 +1958,14 @@ class ForestGen:
             self._add_types(units)
             self._add_chains(units)
         self._enrich(units)
+        if self.opts["dangling_refs"] > 0:
+            # a reference libdw cannot resolve (beyond the section): the raw view lists the attribute all the same
+            for u in units:
+                if self._chance(self.opts["dangling_refs"]):
+                    cands = [d for d in u.root.walk() if d is not u.root and not d.has("specification") and not d.has("abstract_origin")]
+                    if cands:
+                        d = self.rng.choice(cands)
+                        d.add(self.rng.choice(["specification", "abstract_origin"]), "ref_addr", Nowhere(0x7ffffff0))
         for u in units:
             # children flag: forced by children, otherwise now and then a lone null entry
             for d in u.root.walk():
